@@ -13,8 +13,8 @@ from ..engine import graph, rng, src
 PID = "C09"
 LEVEL = "model_checking"
 RULE = ("BFS to the tier's depth from the empty state of 8 object kinds (threshold Antenna, DipoleAntenna, AntennaSystem with x2 "
-        "front end, AntennaSystem with 1-sample-delay front end and lead-in 3dt; each noiseless and noisy) over 21 actions: "
-        "receive(small|large amplitude x windows A=[0,8) B=[4,12) C=[20,28) D=[2,6)), read all_waveforms / waveforms / is_hit, "
+        "front end, AntennaSystem with 1-sample-delay front end and lead-in 3dt; each noiseless and noisy) over 23 actions: "
+        "receive(small|large amplitude x windows A=[0,8) B=[4,12) C=[20,28) D=[2,6) L=[-3,37)), read all_waveforms / waveforms / is_hit, "
         "full_waveform and is_hit_during on 3 windows, make_noise on 2 windows, clear(), clear(reset_noise=True); "
         "distinct_nontrivial = distinct canonical states with >= 1 received signal")
 ASSUMPTIONS = ["a cached waveform may contain the signals present when it was first read or all signals received so far (DESIGN C09 S)",
@@ -24,7 +24,8 @@ CHUNK = 1
 DETERMINISM_CASES = 1
 
 DT = 2.0 ** -30
-WINDOWS = {"A": (0, 8), "B": (4, 12), "C": (20, 28), "D": (2, 6)}
+# L is a long signal that strictly encloses every other window and every query window except "all"/"far"
+WINDOWS = {"A": (0, 8), "B": (4, 12), "C": (20, 28), "D": (2, 6), "L": (-3, 37)}
 # "cut" starts on the last sample of window A and ends on the first sample of window C (edge cases of the overlap test)
 QUERY = {"all": (-4, 32), "cut": (7, 21), "far": (40, 48), "half": None}
 KINDS = ["thr", "dipole", "sys_gain", "sys_delay"]
